@@ -122,7 +122,9 @@ def generate(spec):
             else:
                 hook_sends.append({"k": k, "where": where, "uid": uid, "to": rng.randrange(0, next_id + 1),
                                    "delay": rng.choice([None, round(dt, 6)]), "name": "ping"})
-    return {"property": PROPERTY, "dt": dt, "steps": steps, "drive": drive, "init": init, "pop": pop, "sends": sends, "hook_sends": hook_sends, "acts": acts}
+    return {"property": PROPERTY, "dt": dt, "steps": steps, "drive": drive, "init": init, "pop": pop, "sends": sends, "hook_sends": hook_sends, "acts": acts,
+            # events are routed the same way whether or not the run collects statistics (training runs switch collection off)
+            "collect": rng.random() < 0.7}
 
 
 def expected_wait(delay, dt):
@@ -209,7 +211,7 @@ def execute(case):
             shadow_step(k)
             live_at[k] = (dist, set(sh["live"]))
             try:
-                model.scheduler.run_step(model, (k - 1) // spr, (k - 1) % spr)
+                model.scheduler.run_step(model, (k - 1) // spr, (k - 1) % spr, None, case.get("collect", True))
             except Exception as e:
                 raised = (k, type(e).__name__, str(e)[:80])
                 break
@@ -229,7 +231,7 @@ def execute(case):
                 shadow_apply(sh, op)
                 note_destructive(op)
         try:
-            model.run()
+            model.run(collect_data=case.get("collect", True))
         except Exception as e:
             raised = (w.k, type(e).__name__, str(e)[:80])
     done = w.k if raised is None else raised[0] - 1
